@@ -604,14 +604,18 @@ Section FlexTrees.
   Proof. exact flex_alg_box_sizing_blind. Qed.
 
   (* ---- whole trees: the engine of Model/BlockFlexK.v with the floor 1.0, the real block preprocessing and absolute routine.  The per-node
-     rewrite cannot know the parent's direction, so the class is the direction-free one: eligible and flex_basis not a length *)
-  Theorem C12_blockflex_engine_box_sizing_blind :
+     rewrite cannot know the parent's direction, so the class is the direction-free one: eligible and flex_basis not a length.
+     PARTIAL (audit 7b; the three engine-level theorems renamed): the property text names flex-basis among the lengths that are rewritten; at
+     engine level a node whose flex_basis is a LENGTH is left alone (`bfn_to_border_box` is the identity on it).  Missing: the tree relation
+     with the parent's direction in it.  The algorithm-level theorem C12_flex_algorithm_box_sizing_blind has no such restriction, and
+     C12_blockflex_borders_and_flex_basis_example computes a whole tree with a rewritten length flex_basis. *)
+  Theorem C12_blockflex_engine_box_sizing_blind_partial :
     BoxSizingBlind (BFNode XQ) (FIn XQ) (LayoutOutput XQ) (FLay XQ) bfn_ok bfn_tb bfn_elig (fin_rel 1) (output_rel 1) (flay_rel 1)
                    (bfn_algo one BlockEngine.block_pre BlockAbs.abs_child_block).
   Proof. exact bfn_algo_box_sizing_blind_real. Qed.
 
   (* the conclusion of C12_engine: no premise on the algorithms *)
-  Theorem C12_blockflex_engine_instance :
+  Theorem C12_blockflex_engine_instance_partial :
     forall f t t' i i',
       trel (BFNode XQ) (FIn XQ) (LayoutOutput XQ) (FLay XQ) bfnode_bb (fin_rel 1) (output_rel 1) (flay_rel 1) t t' -> fin_rel 1 i i' ->
       oprel (res_rel (BFNode XQ) (FIn XQ) (LayoutOutput XQ) (FLay XQ) bfnode_bb (fin_rel 1) (output_rel 1) (flay_rel 1))
@@ -620,7 +624,7 @@ Section FlexTrees.
 
   (* every subset of the eligible nodes of a fresh tree rewritten (bfn_to_border_box at the paths selected by `w`), the SAME input: the run
      succeeds iff the original does, the root outputs and the stored layouts of ALL nodes are equal as numbers *)
-  Theorem C12_blockflex_engine_rewritten_layouts :
+  Theorem C12_blockflex_engine_rewritten_layouts_partial :
     forall f (t : sk (BFNode XQ)) (w : list nat -> bool) i o t1,
       sk_all (BFNode XQ) bfn_ok t -> bf_memo f (bfk_fresh t) i = Some (o, t1) ->
       exists o' t1',
@@ -649,9 +653,9 @@ End FlexTrees.
 Print Assumptions C12_flex_rewrite_is_leaf_rewrite.
 Print Assumptions C12_flex_resolutions_blind.
 Print Assumptions C12_flex_algorithm_box_sizing_blind.
-Print Assumptions C12_blockflex_engine_box_sizing_blind.
-Print Assumptions C12_blockflex_engine_instance.
-Print Assumptions C12_blockflex_engine_rewritten_layouts.
+Print Assumptions C12_blockflex_engine_box_sizing_blind_partial.
+Print Assumptions C12_blockflex_engine_instance_partial.
+Print Assumptions C12_blockflex_engine_rewritten_layouts_partial.
 Print Assumptions C12_blockflex_engine_example.
 
 (* ------------------------------------------------------------------------------------------------------------ *)
@@ -672,7 +676,7 @@ Section FlexTreesK.
   Import TV.Model.BlockFlexExample2 TV.Proofs.BlockFlexRel TV.Proofs.BlockFlexExamples TV.Proofs.BlockFlexTaffy.
   Import ListNotations.
 
-  (* C12_blockflex_engine_rewritten_layouts about the K-run engine; PARTIAL like the engine-level theorems of `FlexTrees`: a node whose
+  (* C12_blockflex_engine_rewritten_layouts_partial about the K-run engine; PARTIAL like the engine-level theorems of `FlexTrees`: a node whose
      flex_basis is a length is left alone by `bfn_to_border_box` (its rewrite depends on the parent's direction); that the rewritten
      tree is grid-free is a premise only because no lemma says the rewrite keeps `display` *)
   Theorem C12_taffy_engine_rewritten_layouts_partial :
